@@ -33,7 +33,7 @@ theorem xor_wf (a : Addr) (tid : Nat) (h : a.wf = true) : (xorAddr a tid).wf = t
   unfold xorAddr
   simp only
   refine ⟨?_, Nat.xor_lt_two_pow (n := 16) h.2 (by decide)⟩
-  rw [xorBytes_length _ _ (by rw [hk]; omega)]
+  rw [xorBytes_length_of_le _ _ (by rw [hk]; omega)]
   exact h.1
 
 /-- RFC 8489 §14.2 wire value, against literal constants: reserved 0, family, port XOR 0x2112
